@@ -49,6 +49,12 @@ BOUNDED = {
         statement="two document items whose derived class names coincide are either the same enum (same values in the same "
                   "order) or a diagnostic is issued; never one silently replacing the other",
         bound="two schemas (inline enum/inline enum over 5 value lists, model/inline enum, model/model), both orders"),
+    "equivalent_docs": dict(
+        unit="generate() on pairs of documents that say the same thing in different notation", where="openapi_python_client/",
+        statement="3.0 nullable vs 3.1 type list / null member, single-member allOf/oneOf/anyOf wrapper vs bare $ref, JSON vs "
+                  "YAML, path-item parameter vs the same parameter on each operation: byte-identical trees; a default next "
+                  "to a wrapped reference is kept",
+        bound="9 document pairs"),
 }
 
 
